@@ -559,6 +559,20 @@ def np_unique(I, st, args, kw, node):
                                       z3.And(inr(rep2(g)), rep2(g) != rep(g), cls(rep2(g)) == g)), patterns=[cnt(g)]))
     st.fact(z3.ForAll([i, j], z3.Implies(z3.And(inr(i), inr(j), i != j, cls(i) == cls(j)), cnt(cls(i)) > 1),
                       patterns=[z3.MultiPattern(cls(i), cls(j))]))
+    # instantiation seeds: the occurrences the count facts speak about (hint(x) is true by definition)
+    st.fact(z3.ForAll([g], z3.Implies(inu(g), z3.And(lib.HINT(rep(g)), z3.Implies(cnt(g) > 1, lib.HINT(rep2(g))))),
+                      patterns=[cnt(g)]))
+    if a.ndim == 2:
+        # (derived, stated for the solver's benefit) a unique row IS the input row at its occurrence(s)
+        st.fact(z3.ForAll([g, c], z3.Implies(z3.And(inu(g), c >= 0, c < w),
+                                             z3.And(uf(g, c) == coerce(a.elem(rep(g), c)),
+                                                    z3.Implies(cnt(g) > 1, uf(g, c) == coerce(a.elem(rep2(g), c))))),
+                          patterns=[uf(g, c)]))
+    if a.ndim == 2:
+        # (derived, stated for the solver's benefit) two different unique rows differ in some column
+        dcol = z3.Function(fresh_name("uq_diffcol"), z3.IntSort(), z3.IntSort(), z3.IntSort())
+        st.fact(z3.ForAll([g, j], z3.Implies(z3.And(inu(g), inu(j), g != j),
+                                             z3.And(dcol(g, j) >= 0, dcol(g, j) < w, uf(g, dcol(g, j)) != uf(j, dcol(g, j))))))
     ur = st.alloc(U, "arr")
     out = [ur]
     if want_index:
